@@ -266,6 +266,33 @@ def _roundtrip_worker(rank, n, tier):
     return st
 
 
+def concurrent_pairs(tier):
+    """Two jobs sending different colours and durations through the same command path at the same time
+    (a queued and a background job of the web server): each transmits its own registers' conversion."""
+    A = {'logical': 'hue 120 saturation 100 brightness 50 kelvin 2700 duration 1',
+         'raw': 'units raw hue 1000 saturation 2000 brightness 3000 kelvin 3500 duration 2500',
+         'rgb': 'units rgb red 10 green 100 blue 50 kelvin 4000 duration 0.25'}
+    B = {'logical': 'hue 240.5 saturation 33.3 brightness 99 kelvin 9000 duration 3',
+         'raw': 'units raw hue 65535 saturation 1 brightness 32768 kelvin 1500 duration 7',
+         'rgb': 'units rgb red 90 green 0.5 blue 75 kelvin 6500 duration 12.5'}
+    cmds = [('set "a"', 'set "a"'), ('set "m" row 0', 'set "m" column 1'),
+            ('set "m" begin stage row 0 hue 10 stage column 0 end', 'set "m" row 1 column 0 1'),
+            ('set "s" zone 0 1', 'set "s" zone 1'), ('on "a"', 'off "a"'), ('set all', 'set "a"'),
+            ('set group "g"', 'set location "p"'), ('on all', 'off group "g"')]
+    modes = [('logical', 'logical'), ('logical', 'raw'), ('rgb', 'logical')] if tier == 'quick' else \
+        [(x, y) for x in A for y in B]
+    out = []
+    for ca, cb in cmds:
+        for ma, mb in modes:
+            if tier == 'quick' and (ma, mb) != ('logical', 'logical') and not ca.startswith('set "m" row'):
+                continue
+            out.append((POP, '%s %s' % (A[ma], ca), '%s %s' % (B[mb], cb), 1))
+    if tier == 'thorough':
+        out.append((POP, 'hue 120 duration 1 set "m" row 0', 'hue 240 duration 2 set "m" column 1', 2))
+        out.append((POP, 'hue 120 duration 1 set "a"', 'units raw hue 240 duration 2 set "a"', 2))
+    return out
+
+
 def run(tier, seed):
     rep = Report()
     res = par.run(_worker, (tier,))
@@ -282,20 +309,33 @@ def run(tier, seed):
     for kind, (cnt, text, vals, detail) in sorted(viol.items()):
         rep.violation(kind, '%s (%d values), e.g. `%s` with %r: %s' % (kind, cnt, text, vals, detail),
                       {'script': text, 'values': vals, 'detail': detail, 'cases': cnt})
+    from . import concur
+    ctasks = concurrent_pairs(tier)
+    cres = par.run_tasks(concur.pair_task, ctasks)
+    cexec = sum(r['execs'] for r in cres)
+    assert all(r['execs'] > 20 for r in cres)
+    for task, r in zip(ctasks, cres):
+        for kind, (cnt, choices, detail, texts) in r['viol'].items():
+            rep.violation(kind, '%s (%d schedules): %s; jobs %r' % (kind, cnt, detail, texts),
+                          {'pair': [list(t) for t in texts], 'choices': choices, 'detail': detail, 'schedules': cnt})
     n_cases = sum(r['cases'] for r in res)
     n_rt = sum(r['cases'] for r in rres) + sum(r['cases'] for r in ures)
     names = [c[0] for c in cases(tier)]
     rep.coverage = {
-        'states': n_cases + n_rt, 'transitions': n_cases + n_rt,
-        'traces_validated_against_impl': n_cases + n_rt, 'evaluations': n_cases + n_rt,
+        'states': n_cases + n_rt + cexec, 'transitions': n_cases + n_rt + cexec,
+        'traces_validated_against_impl': n_cases + n_rt + cexec, 'evaluations': n_cases + n_rt + cexec,
         'distinct_nontrivial': n_cases + n_rt,
         'rule': 'one VM run per (command path, unit mode, register, value): all 65536 raw values of each colour component; '
                 'hue -720..1080 step 0.25, percentages -50..150 step 0.05, duration/time sets incl. 2^32 ms boundary and 1e12; rgb '
-                'triples on a grid; round trip get->set for all 65536 values of each component; distinct_nontrivial = cases (all distinct inputs)',
+                'triples on a grid; round trip get->set for all 65536 values of each component; two jobs sending different colours through the '
+                'same command path on two controlled threads (every schedule with <=1 preemption at line granularity, each job compared '
+                'with its solo run); distinct_nontrivial = cases (all distinct inputs)',
         'exhaustive': True,
         'templates': len(names),
         'template_names_sample': names[::17],
         'roundtrip_cases': n_rt,
+        'concurrent_job_pairs': len(ctasks),
+        'concurrent_schedules': cexec,
         'samples': ['units raw ... hue 65535 set "s" zone 1 2', 'hue -719.75 set group "g"', 'duration 4294967.296 on location "p"',
                     'units rgb red 10 green 100 blue 50 set "m" row 0 column 1'],
     }
@@ -308,6 +348,9 @@ def replay(path):
     import json
     v = json.load(open(path))
     wit = v['witness']
+    if 'pair' in wit:
+        from . import concur
+        return concur.replay(POP, wit['pair'], wit['choices'])
     w = world.World(POP)
     text = wit['script']
     for s, val in zip(SENT, wit['values']):
